@@ -72,7 +72,7 @@ class Exe:
 def build(ctx):
     srcs = pipecommon.driver_sources(EXTRA_MODULES, EXTRA, ["pd_ext_c01.c"])
     objs = ctx.cc_objs(srcs, san="asan")
-    return ctx.cc("pd_c01", objs, san="asan")
+    return ctx.cc("pd_c01", objs, san="asan", flags=["-Wl,--wrap=malloc"])
 
 
 SAN_ENV = {"ASAN_OPTIONS": "detect_leaks=1:abort_on_error=0:exitcode=97:allocator_may_return_null=1",
@@ -488,6 +488,8 @@ def well_formed(cmds):
             regs[t[2]] = None
         if k == "rel" and t[1] in regs.values():
             return False              # unregister before releasing the pipe
+        if k in ("failmem", "failmalloc", "failoff"):
+            continue
         if k == "pump":
             if t[1] in live:
                 return False
@@ -1075,7 +1077,7 @@ def epilogue_for(body):
             ubufs.remove(t[1])
         elif k == "uattach" and t[2] in ubufs:
             ubufs.remove(t[2])
-    ep = []
+    ep = ["failoff"] if any(c.split()[0] in ("failmem", "failmalloc") for c in body) else []
     for n in held:
         if kind[n] == "sink":
             ep += ["policy %s accept" % n, "reqmode %s hold" % n]
@@ -1403,6 +1405,11 @@ def gen_random(rng, info, quick):
             if a >= 9:
                 chain_op(rng, a, uid, ubufs, cmds)
                 continue
+            # a refused allocation (the n-th umem buffer / the n-th malloc) inside the next call: the call may
+            # fail (the handle then stays unbound: later commands naming it do nothing), nothing may be lost
+            fault = a in (0, 1, 5) and rng.chance(1, 5)
+            if fault:
+                cmds.append("%s %d" % (rng.choice(["failmem", "failmem", "failmalloc"]), 1 + rng.below(3)))
             if a == 0 and len(urefs) < 3:
                 n = "u%d" % uid
                 cmds.append("ualloc %s %d" % (n, rng.choice([0, 4, 32])))
@@ -1453,6 +1460,8 @@ def gen_random(rng, info, quick):
                     urefs[n] = "fd"
                     if fd_accepts(p):
                         fd_ok.add(p)
+            if fault:
+                cmds.append("failoff")
     e = Exe(cmds + epilogue_for(cmds), "random", pool)
     e.nbody = len(cmds)
     return e
@@ -1512,6 +1521,16 @@ def directed():
                     % (", flush" if flush else "", "last" if pump_last else "first"), 0)
             e.nbody = len(body)
             out.append(e)
+    # refused allocations inside uref_dup / uref_block_alloc / ubuf_dup with recycled structures in the pools:
+    # whatever the error path releases must be its own
+    for kind, n in (("failmem", 1), ("failmem", 2), ("failmalloc", 1), ("failmalloc", 2), ("failmalloc", 3)):
+        body = ["sink s0", "who s0", "ualloc u1 32", "ualloc u2 8", "ufree u1", "ufree u2", "ufd u3 bA",
+                "%s %d" % (kind, n), "udup u3 u4", "failoff", "ualloc u5 8", "ualloc u6 8",
+                "%s %d" % (kind, n), "udup u5 u7", "failoff", "udetach u6 b1", "%s %d" % (kind, n), "bdup b1 b2", "failoff",
+                "%s %d" % (kind, n), "ualloc u8 16", "failoff", "ufree u5", "ufree u6", "rcs"]
+        e = Exe(body + epilogue_for(body), "directed refused allocation (%s %d)" % (kind, n), 2)
+        e.nbody = len(body)
+        out.append(e)
     body = ["cnew p1 stream_switcher", "who p1", "sub q0 p1", "who q0", "rel p1", "setfd q0 bA", "rcs"]
     e = Exe(body + epilogue_for(body), "directed sub-pipe controls its released super pipe", 0)
     e.nbody = len(body)
